@@ -82,6 +82,8 @@ func init() {
 }
 
 func runC16(p *chk.Prog, r *chk.Report) {
+	// the first UPDATEs of a connection carry the session's own ASN as every later one does (FULL-RESEND / DIFF, shared with C17)
+	c17Diff(p, r)
 	c16OpenFields(p, r)
 	c16Layout(p, r)
 	c16Open(p, r)
